@@ -637,7 +637,8 @@ func c16genDoc(r *rand.Rand, maxDepth int, containerTop bool) string {
 
 func c16genPointer(r *rand.Rand) []byte {
 	pieces := []string{"/", "/", "~0", "~1", "~", "~2", "a", "b", "0", "1", "12", "é", "\xff", "\xc3", "\xef\xbf\xbd", "\xef\xbf", "\xed\xa0\x80",
-		"😀", "\xf0\x9f", "", "//", "~01", "~10", "/~", "~/", " ", "\x00", "abc", "~~", "\x80", "\xf4\x90\x80\x80"}
+		"😀", "\xf0\x9f", "", "//", "~01", "~10", "/~", "~/", " ", "\x00", "abc", "~~", "\x80", "\xf4\x90\x80\x80",
+		"/a~", "/~0~", "/a/b", "/x/y/z"}
 	n := r.IntN(7)
 	if r.IntN(20) == 0 {
 		n = 20 + r.IntN(60)
@@ -649,6 +650,12 @@ func c16genPointer(r *rand.Rand) []byte {
 		} else {
 			b = append(b, pieces[r.IntN(len(pieces))]...)
 		}
+	}
+	switch r.IntN(12) {
+	case 0: // a well-formed pointer with a dangling escape at the very end
+		b = append(append([]byte("/"), bytes.ReplaceAll(b, []byte("~"), []byte("~0"))...), '~')
+	case 1: // a rendered pointer: always valid
+		b = []byte(jsontext.Pointer("").AppendToken(string(b)).AppendToken("t/~"))
 	}
 	return b
 }
@@ -728,6 +735,20 @@ func c16Correspondence(c *Ctx) {
 			}
 			if utf8.Valid(tok) && ap.LastToken() != string(tok) {
 				c.Violate("pointer-inconsistent", "LastToken(AppendToken)", p, map[string]any{"tok": hx(tok), "got": ap.LastToken()})
+			}
+			// IsValid cross-checked against the other methods: for well-formed UTF-8 the pointer is valid iff it is
+			// what AppendToken rebuilds from its own Tokens (Lean: isValid_render, isValid_appendToken)
+			if utf8.Valid(p) {
+				rebuilt := jsontext.Pointer("")
+				for t := range pp.Tokens() {
+					rebuilt = rebuilt.AppendToken(t)
+				}
+				if (rebuilt == pp) != pp.IsValid() {
+					c.Violate("pointer-inconsistent", "IsValid-vs-Tokens/AppendToken", p, map[string]any{"IsValid": pp.IsValid(), "rebuilt": hx([]byte(rebuilt))})
+				}
+				if pp.IsValid() && pp != "" && pp.Parent().AppendToken(pp.LastToken()) != pp {
+					c.Violate("pointer-inconsistent", "Parent+LastToken", p, map[string]any{"parent": string(pp.Parent()), "last": pp.LastToken()})
+				}
 			}
 			if pp.IsValid() {
 				if !ap.IsValid() {
@@ -1162,7 +1183,7 @@ func c16Decoder(c *Ctx) {
 		}
 	}
 	var wg sync.WaitGroup
-	sem := make(chan struct{}, 16)
+	sem := make(chan struct{}, 4)
 	for _, d := range docs {
 		doc := []byte(d)
 		toks, valueEnd := c16tokenTable(doc)
@@ -1403,7 +1424,7 @@ func c16Encoder(c *Ctx) {
 		{"spaces", []jsontext.Options{jsontext.SpaceAfterColon(true), jsontext.SpaceAfterComma(true)}},
 	}
 	var wg sync.WaitGroup
-	sem := make(chan struct{}, 16)
+	sem := make(chan struct{}, 4)
 	for first := range alpha {
 		wg.Add(1)
 		sem <- struct{}{}
@@ -1741,7 +1762,7 @@ func c16checkRejected(c *Ctx, path string, in []byte, s *c16scan, err error, mut
 
 func c16Rejected(c *Ctx) {
 	n := c.N(160000, 3000000)
-	workers := 16
+	workers := 4
 	var wg sync.WaitGroup
 	for w := 0; w < workers; w++ {
 		wg.Add(1)
@@ -2085,6 +2106,262 @@ func c16Semantic(c *Ctx) {
 }
 
 // ---------------------------------------------------------------------------------------------
+// (f) tie of the errors.go model: real SyntacticError.JSONPointer vs `ptr errptr`
+// ---------------------------------------------------------------------------------------------
+
+// names that need '/', '~', both, neither, multi-byte and ill-formed UTF-8 (none needs JSON escaping)
+var c16errNames = []string{"a", "k", "a/b", "/", "//x", "x/y/z", "~", "m~n", "~/", "/~", "a/b~c", "~0", "~1", "~01", "é/", "é", "😀/~",
+	"\xff", "a\xffb/", "\xc3/~", "\xed\xa0\x80/", "", "0", "10"}
+
+type c16hist struct {
+	syms  []string   // oracle tokens
+	text  []byte     // the JSON text of the history
+	stack []byte     // open containers
+	cnt   []int      // tokens per level (level 0 = top)
+	names [][]string // names used in each open object
+	bad   bool       // some name is ill-formed UTF-8
+}
+
+func (h *c16hist) sep() {
+	top := h.cnt[len(h.cnt)-1]
+	switch {
+	case len(h.stack) == 0:
+		if top > 0 {
+			h.text = append(h.text, ' ')
+		}
+	case h.stack[len(h.stack)-1] == '{' && top%2 == 1:
+		h.text = append(h.text, ':')
+	case top > 0:
+		h.text = append(h.text, ',')
+	}
+}
+
+func c16genHist(r *rand.Rand, steps int) *c16hist {
+	h := &c16hist{cnt: []int{0}}
+	for j := 0; j < steps; j++ {
+		inObj := len(h.stack) > 0 && h.stack[len(h.stack)-1] == '{'
+		needName := inObj && h.cnt[len(h.cnt)-1]%2 == 0
+		k := r.IntN(9)
+		switch {
+		case needName && k < 7:
+			var nm string
+			ok := false
+			for try := 0; try < 5 && !ok; try++ {
+				nm = c16errNames[r.IntN(len(c16errNames))]
+				ok = true
+				for _, u := range h.names[len(h.names)-1] {
+					if u == nm {
+						ok = false
+					}
+				}
+			}
+			if !ok {
+				continue
+			}
+			h.sep()
+			h.text = append(append(append(h.text, '"'), nm...), '"')
+			h.syms = append(h.syms, "s"+hx([]byte(nm)))
+			h.names[len(h.names)-1] = append(h.names[len(h.names)-1], nm)
+			h.cnt[len(h.cnt)-1]++
+			h.bad = h.bad || !utf8.ValidString(nm)
+		case needName:
+			h.text = append(h.text, '}')
+			h.syms = append(h.syms, "}")
+			h.stack, h.cnt, h.names = h.stack[:len(h.stack)-1], h.cnt[:len(h.cnt)-1], h.names[:len(h.names)-1]
+		case k <= 1:
+			h.sep()
+			h.text = append(h.text, []string{"null", "1", "-2.5e3", "true"}[r.IntN(4)]...)
+			h.syms = append(h.syms, "l")
+			h.cnt[len(h.cnt)-1]++
+		case k == 2:
+			h.sep()
+			h.text = append(h.text, `"v/~"`...)
+			h.syms = append(h.syms, "s"+hx([]byte("v/~")))
+			h.cnt[len(h.cnt)-1]++
+		case k <= 5:
+			h.sep()
+			h.text = append(h.text, '{')
+			h.syms = append(h.syms, "{")
+			h.cnt[len(h.cnt)-1]++
+			h.stack, h.cnt, h.names = append(h.stack, '{'), append(h.cnt, 0), append(h.names, nil)
+		case k <= 7:
+			h.sep()
+			h.text = append(h.text, '[')
+			h.syms = append(h.syms, "[")
+			h.cnt[len(h.cnt)-1]++
+			h.stack, h.cnt, h.names = append(h.stack, '['), append(h.cnt, 0), append(h.names, nil)
+		default:
+			if len(h.stack) > 0 && h.stack[len(h.stack)-1] == '[' {
+				h.text = append(h.text, ']')
+				h.syms = append(h.syms, "]")
+				h.stack, h.cnt, h.names = h.stack[:len(h.stack)-1], h.cnt[:len(h.cnt)-1], h.names[:len(h.names)-1]
+			}
+		}
+	}
+	return h
+}
+
+func c16ErrPointerTie(c *Ctx) {
+	or := c.NewOracle()
+	if or == nil {
+		c.Note("no oracle: errors.go tie skipped")
+		return
+	}
+	r := c.SubRng(700)
+	n := c.N(12000, 300000)
+	var lines, want, what []string
+	var inputs [][]byte
+	add := func(line string, ptr jsontext.Pointer, kind string, in []byte) {
+		lines, want, what, inputs = append(lines, line), append(want, hx([]byte(ptr))), append(what, kind), append(inputs, in)
+	}
+	errPtr := func(kind string, in []byte, err error) (jsontext.Pointer, bool) {
+		var se *jsontext.SyntacticError
+		if !errors.As(err, &se) {
+			c.Violate("not-a-syntactic-error", "errptr/"+kind, in, map[string]any{"input": string(in), "err": fmt.Sprint(err)})
+			return "", false
+		}
+		return se.JSONPointer, true
+	}
+	for i := 0; i < n; i++ {
+		h := c16genHist(r, r.IntN(12))
+		hs := strings.Join(h.syms, " ")
+		opts := []jsontext.Options{jsontext.AllowInvalidUTF8(true)}
+		top := h.cnt[len(h.cnt)-1]
+		inObj := len(h.stack) > 0 && h.stack[len(h.stack)-1] == '{'
+		inArr := len(h.stack) > 0 && h.stack[len(h.stack)-1] == '['
+		readHist := func(in []byte) (*jsontext.Decoder, bool) {
+			dec := jsontext.NewDecoder(bytes.NewBuffer(append([]byte(nil), in...)), opts...)
+			for range h.syms {
+				if _, err := dec.ReadToken(); err != nil {
+					fail("c16: history text %q rejected: %v", in, err)
+				}
+			}
+			return dec, true
+		}
+		switch kind := r.IntN(4); {
+		case kind == 0 && (inArr || (inObj && top%2 == 0) || len(h.stack) == 0):
+			// mismatched closing delimiter through ReadToken
+			closer := byte(']')
+			if inArr {
+				closer = '}'
+			}
+			in := append(append([]byte(nil), h.text...), closer)
+			var err error
+			if pn := guard(func() { dec, _ := readHist(in); _, err = dec.ReadToken() }); pn != nil {
+				c.Panic("errptr/mismatch", in, pn, nil)
+				continue
+			}
+			if p, ok := errPtr("mismatch", in, err); ok {
+				add(strings.TrimSpace("ptr errptr 1 1 "+hs)+" |", p, "mismatch", in)
+			}
+		case kind == 1 && inObj && top%2 == 0 && top >= 2:
+			// duplicate name through ReadToken
+			nm := h.names[len(h.names)-1][r.IntN(len(h.names[len(h.names)-1]))]
+			in := append(append(append(append([]byte(nil), h.text...), `,"`...), nm...), '"')
+			var err error
+			if pn := guard(func() { dec, _ := readHist(in); _, err = dec.ReadToken() }); pn != nil {
+				c.Panic("errptr/duplicate", in, pn, nil)
+				continue
+			}
+			if p, ok := errPtr("duplicate", in, err); ok {
+				add(strings.TrimSpace("ptr errptr 1 0 "+hs)+" | n"+hx([]byte(nm)), p, "duplicate", in)
+			}
+		case !(inObj && top%2 == 0):
+			// an error nested inside a value: ReadValue and WriteValue
+			depth := r.IntN(5)
+			var refs []string
+			var open, closeT []byte
+			bad := h.bad
+			for d := 0; d < depth; d++ {
+				if r.IntN(2) == 0 {
+					nm := c16errNames[r.IntN(len(c16errNames))]
+					bad = bad || !utf8.ValidString(nm)
+					refs = append(refs, "n"+hx([]byte(nm)))
+					if r.IntN(2) == 0 && nm != "pre" {
+						open = append(open, `{"pre":0,"`...)
+					} else {
+						open = append(open, `{"`...)
+					}
+					open = append(append(open, nm...), `":`...)
+					closeT = append([]byte("}"), closeT...)
+				} else {
+					idx := r.IntN(4)
+					refs = append(refs, "i"+strconv.Itoa(idx))
+					open = append(open, '[')
+					for z := 0; z < idx; z++ {
+						open = append(open, "0,"...)
+					}
+					closeT = append([]byte("]"), closeT...)
+				}
+			}
+			var inner []byte
+			variant := "nested-dup"
+			if r.IntN(2) == 0 {
+				nm := c16errNames[r.IntN(len(c16errNames))]
+				bad = bad || !utf8.ValidString(nm)
+				inner = []byte(`{"` + nm + `":1,"q":2,"` + nm + `":3}`)
+				refs = append(refs, "n"+hx([]byte(nm)))
+			} else {
+				variant = "nested-invalid"
+				inner = []byte(`?`)
+				if depth == 0 {
+					continue // the value itself is bad: that is the plain token-path case
+				}
+			}
+			val := append(append(append([]byte(nil), open...), inner...), closeT...)
+			hh := *h
+			hh.text = append([]byte(nil), h.text...)
+			hh.sep()
+			in := append(hh.text, val...)
+			var err error
+			if pn := guard(func() { dec, _ := readHist(in); _, err = dec.ReadValue() }); pn != nil {
+				c.Panic("errptr/"+variant, in, pn, nil)
+				continue
+			}
+			line := strings.TrimSpace("ptr errptr 1 0 "+hs) + " | " + strings.Join(refs, " ")
+			if p, ok := errPtr(variant+"/ReadValue", in, err); ok {
+				add(line, p, variant+"/ReadValue", in)
+			}
+			// the same through an Encoder: history by WriteValue of each token's text is awkward; replay tokens
+			if !bad {
+				var buf bytes.Buffer
+				enc := jsontext.NewEncoder(&buf)
+				okHist := true
+				if pn := guard(func() {
+					d2 := jsontext.NewDecoder(bytes.NewReader(h.text))
+					for range h.syms {
+						tk, e := d2.ReadToken()
+						if e != nil || enc.WriteToken(tk) != nil {
+							okHist = false
+							return
+						}
+					}
+					err = enc.WriteValue(jsontext.Value(val))
+				}); pn != nil {
+					c.Panic("errptr/"+variant+"/WriteValue", in, pn, nil)
+					continue
+				}
+				if okHist {
+					if p, ok := errPtr(variant+"/WriteValue", in, err); ok {
+						add(line, p, variant+"/WriteValue", in)
+					}
+				}
+			}
+		default:
+			continue
+		}
+		c.Case("errptr:"+hs+fmt.Sprint(i%7), true)
+	}
+	ans := or.Ask(lines)
+	for i := range lines {
+		c.Hit("errptr/" + what[i])
+		if ans[i] != want[i] {
+			c.Violate("corr-errptr", what[i], inputs[i], map[string]any{"line": lines[i], "input": string(inputs[i]), "impl": string(unhx(want[i])), "model": string(unhx(ans[i]))})
+		}
+	}
+}
+
+// ---------------------------------------------------------------------------------------------
 // (e) coder reuse through the pools and through Reset at the json level
 // ---------------------------------------------------------------------------------------------
 
@@ -2249,7 +2526,7 @@ func runC16(c *Ctx) {
 	parts := []struct {
 		name string
 		f    func(*Ctx)
-	}{{"correspondence", c16Correspondence}, {"decoder", c16Decoder}, {"encoder", c16Encoder}, {"rejected", c16Rejected}, {"semantic", c16Semantic}, {"pooled", c16Pooled}}
+	}{{"correspondence", c16Correspondence}, {"decoder", c16Decoder}, {"encoder", c16Encoder}, {"rejected", c16Rejected}, {"semantic", c16Semantic}, {"pooled", c16Pooled}, {"errors.go", c16ErrPointerTie}}
 	for _, p := range parts {
 		p.f(c)
 	}
